@@ -82,6 +82,7 @@ type Finding struct {
 }
 
 type PathResult struct {
+	OkModel       map[string]string // a model of the path condition of a clean path, when sampled
 	Outcome       string // ok, panic, unsupported, unwind, infeasible, steps
 	Detail        string
 	Decisions     []Decision
@@ -127,6 +128,8 @@ type run struct {
 	lastInstr       ssa.Instruction
 	lazyAssumes     int
 	choiceMemo      map[string]int
+	uuidCounter     int
+	freshContent    int
 	ghostKeys       map[*value]*value   // private key object -> its public half (vrt.BindKeyPair)
 	ghostSig        map[*value]ghostSig // JWS contract stubs: signature object -> (signing key, signed payload)
 	ghostParsed     value               // what the parser stub yields
